@@ -1,5 +1,6 @@
 use std::convert::TryFrom;
 
+use rusty_bit_vec::{MAX_INTEGER, MAX_LONG, MIN_INTEGER, MIN_LONG};
 use rusty_linter::core::qualifier_of_variant;
 use rusty_parser::{FileHandle, TypeQualifier};
 use rusty_variant::Variant;
@@ -81,8 +82,19 @@ fn parse_single_input(s: String) -> Result<f32, RuntimeError> {
     if s.is_empty() {
         Ok(0.0)
     } else {
-        s.parse::<f32>()
-            .map_err(|e| RuntimeError::Other(format!("Could not parse {} as float: {}", s, e)))
+        match s.parse::<f32>() {
+            Ok(f) => {
+                if f.is_finite() {
+                    Ok(f)
+                } else {
+                    Err(RuntimeError::Overflow)
+                }
+            }
+            Err(e) => Err(RuntimeError::Other(format!(
+                "Could not parse {} as float: {}",
+                s, e
+            ))),
+        }
     }
 }
 
@@ -90,8 +102,19 @@ fn parse_double_input(s: String) -> Result<f64, RuntimeError> {
     if s.is_empty() {
         Ok(0.0)
     } else {
-        s.parse::<f64>()
-            .map_err(|e| RuntimeError::Other(format!("Could not parse {} as double: {}", s, e)))
+        match s.parse::<f64>() {
+            Ok(f) => {
+                if f.is_finite() {
+                    Ok(f)
+                } else {
+                    Err(RuntimeError::Overflow)
+                }
+            }
+            Err(e) => Err(RuntimeError::Other(format!(
+                "Could not parse {} as double: {}",
+                s, e
+            ))),
+        }
     }
 }
 
@@ -99,8 +122,19 @@ fn parse_long_input(s: String) -> Result<i64, RuntimeError> {
     if s.is_empty() {
         Ok(0)
     } else {
-        s.parse::<i64>()
-            .map_err(|e| RuntimeError::Other(format!("Could not parse {} as long: {}", s, e)))
+        match s.parse::<i64>() {
+            Ok(i) => {
+                if i >= MIN_LONG && i <= MAX_LONG {
+                    Ok(i)
+                } else {
+                    Err(RuntimeError::Overflow)
+                }
+            }
+            Err(e) => Err(RuntimeError::Other(format!(
+                "Could not parse {} as long: {}",
+                s, e
+            ))),
+        }
     }
 }
 
@@ -108,8 +142,19 @@ fn parse_int_input(s: String) -> Result<i32, RuntimeError> {
     if s.is_empty() {
         Ok(0)
     } else {
-        s.parse::<i32>()
-            .map_err(|e| RuntimeError::Other(format!("Could not parse {} as int: {}", s, e)))
+        match s.parse::<i32>() {
+            Ok(i) => {
+                if i >= MIN_INTEGER && i <= MAX_INTEGER {
+                    Ok(i)
+                } else {
+                    Err(RuntimeError::Overflow)
+                }
+            }
+            Err(e) => Err(RuntimeError::Other(format!(
+                "Could not parse {} as int: {}",
+                s, e
+            ))),
+        }
     }
 }
 
